@@ -81,6 +81,10 @@ def two32 : Int := 4294967296
 
 /-! ### daemon histories -/
 
+def faultOf (s : String) : Option Fault :=
+  if s == "o" then some .openf else if s == "i" then some .info else if s == "u" then some .unlink
+  else if s == "s" then some .stat else none
+
 def parseStep (t : String) : Step :=
   let body := (t.drop 1).toString
   match t.front with
@@ -99,8 +103,18 @@ def parseStep (t : String) : Step :=
     | [c, l] => match chanOf c with
       | some ch => .pass ch (if l.isEmpty then [90] else l.toUTF8.toList)
       | none => .bad
+    | [c, l, f] => match chanOf c, faultOf f with
+      | some ch, some ft => .pass ch (if l.isEmpty then [90] else l.toUTF8.toList) ft
+      | _, _ => .bad
     | _ => .bad
   | _ => .bad
+
+def specRetry (clock birth : Int) (c : Chan) : Option Int :=
+  let age := clock - birth
+  if 0 ≤ age && age < two32 then
+    let r : Int := (Nat.sqrt age.toNat : Nat)
+    some (birth + (r + skip c) * (r + skip c))
+  else none
 
 def parseEv (t : String) : Option Ev :=
   match t.splitOn "/" with
@@ -145,6 +159,8 @@ structure OSt where
   bounce : List (Nat × (Nat × Nat)) := []          -- per message: paragraphs, too-long paragraphs seen so far
   dues : List ((Nat × Chan) × Int) := []           -- mtime given by the script
   atFin : Option (List Elt × List Elt) := none     -- heaps when pqfinish ran (cleared by anything but L)
+  backoff : List ((Nat × Chan) × Int) := []        -- ghost: back-off time owed since the last attempt that left a 'T' record
+                                                   -- (theorem C15_hist_backoff); cleared by ALRM, file creation, crash restart
 
 def OSt.q (o : OSt) : Chan → List Elt | .loc => o.q0 | .rem => o.q1
 
@@ -159,10 +175,11 @@ def oracleStep (lifetime : Int) (o : OSt) (stp : Step) (ev : Ev) : OSt × Option
   | .mk id c birth due nrec, _ =>
     let births := if (o.births.find? (·.1 == id)).isSome then o.births else (id, birth) :: o.births
     ({ o with births := births, recs := setKey (id, c) (List.replicate nrec true) o.recs,
-              dues := setKey (id, c) due o.dues, atFin := none }, none)
+              dues := setKey (id, c) due o.dues, atFin := none,
+              backoff := o.backoff.filter (fun x => !(x.1.1 == id)) }, none)
   | .clock t, _ => ({ o with clock := t }, none)
   | .load, .load a b d =>
-    let o' := { o with q0 := a, q1 := b, done := d, atFin := none }
+    let o' := { o with q0 := a, q1 := b, done := d, atFin := none, backoff := if o.atFin.isSome then o.backoff else [] }
     if !(heapB a.toArray && heapB b.toArray && heapB d.toArray) then (o', some "heap order broken after pqstart") else
     match o.atFin with
     | some (f0, f1) =>
@@ -175,7 +192,7 @@ def oracleStep (lifetime : Int) (o : OSt) (stp : Step) (ev : Ev) : OSt × Option
       else if !(o.q0.isEmpty && o.q1.isEmpty) then (o', none)   -- crash restart: not covered by the property
       else (o', some "pqstart did not load the persisted due times (mtime of the channel files)")
   | .alrm, .alrm a b =>
-    let o' := { o with q0 := a, q1 := b, atFin := none }
+    let o' := { o with q0 := a, q1 := b, atFin := none, backoff := [] }
     let ok (n old : List Elt) := n.all (fun e => e.dt == o.clock) && sameMultiset (n.map fun e => { e with dt := 0 }) (old.map fun e => { e with dt := 0 })
     if ok a o.q0 && ok b o.q1 then (o', none) else (o', some "after ALRM (pqrun) not every scheduled message is due now")
   | .wake, .wake t =>
@@ -186,13 +203,26 @@ def oracleStep (lifetime : Int) (o : OSt) (stp : Step) (ev : Ev) : OSt × Option
     let ok (q m : List Elt) := q.all fun e => m.contains e
     let o' := { o with atFin := some (o.q0, o.q1), q0 := [], q1 := [] }
     if ok o.q0 m0 && ok o.q1 m1 then (o', none) else (o', some "pqfinish did not persist every due time as the channel file's mtime")
-  | .pass c letters, .pass id retry dying ndel recs npar ntoo a b d =>
+  | .pass c letters fault, .pass id retry dying ndel recs npar ntoo a b d =>
     let o' := { o with q0 := a, q1 := b, done := d, atFin := none }
     let prev := o.q c
+    let newq0 := o'.q c
+    if !(heapB a.toArray && heapB b.toArray && heapB d.toArray) then (o', some "heap order broken") else
     if id = 0 then
       match minDt prev with
-      | some m => if m ≤ o.clock then (o', some s!"a message due at {m} was not started at {o.clock}") else (o', none)
-      | none => (o', none)
+      | some m =>
+        if m ≤ o.clock then
+          if fault.trouble then
+            -- the channel file / info file could not be opened: the message must stay scheduled on the channel
+            -- (not lost), strictly later than it was (never earlier than its back-off time), nothing else moves
+            let ok := prev.any fun e => e.dt == m &&
+              (match newq0.find? (·.id == e.id) with
+               | some ne => decide (ne.dt > e.dt) && decide (ne.dt > o.clock) && sameMultiset newq0 (ne :: (removeOne e prev).getD prev)
+               | none => false)
+            (o', if ok then none else some s!"after a failed open at {o.clock} the due message is lost or rescheduled earlier than before")
+          else (o', some s!"a message due at {m} was not started at {o.clock}")
+        else (o', if sameMultiset newq0 prev then none else some "nothing was due but the schedule changed")
+      | none => (o', if newq0.isEmpty then none else some "nothing was scheduled but the schedule changed")
     else
       match prev.find? (·.id == id) with
       | none => (o', some s!"started message {id} which was not scheduled on this channel")
@@ -202,13 +232,22 @@ def oracleStep (lifetime : Int) (o : OSt) (stp : Step) (ev : Ev) : OSt × Option
         let before := lookupD (id, c) [] o.recs
         let (after, p, t, k) := specAnswer dying letters before 0
         let gone := after.all (fun b => !b)
-        let recsExp := if gone then "gone" else recsString (some after)
+        let unlinkFailed := gone && fault == Fault.unlink
+        let recsExp := if gone && !unlinkFailed then "gone" else recsString (some after)
         let (p0, t0) := lookupD id (0, 0) o.bounce
-        let o' := { o' with recs := if gone then o'.recs.filter (fun x => !(x.1 == (id, c))) else setKey (id, c) after o'.recs,
-                            bounce := setKey id (npar, ntoo) o'.bounce }
+        let owed := (o.backoff.find? (·.1 == (id, c))).map (·.2)
+        let otherRecs := (o.recs.find? (·.1 == (id, SchedHist.other c))).isSome
+        let o' := { o' with recs := if gone && !unlinkFailed then o'.recs.filter (fun x => !(x.1 == (id, c))) else setKey (id, c) after o'.recs,
+                            bounce := setKey id (npar, ntoo) o'.bounce,
+                            backoff := if gone then o'.backoff.filter (fun x => !(x.1 == (id, c)))
+                                       else match specRetry o.clock birth c with
+                                         | some r => setKey (id, c) r o'.backoff
+                                         | none => o'.backoff.filter (fun x => !(x.1 == (id, c))) }
         let newq := o'.q c
         let rest := (removeOne e prev).getD prev
         if e.dt > o.clock then (o', some s!"message {id} started at {o.clock}, before its retry time {e.dt}")
+        else if (match owed with | some r => decide (o.clock < r) | none => false) then
+          (o', some s!"message {id} attempted again at {o.clock}, before the back-off time {owed.getD 0} owed since its last temporary failure")
         else if some e.dt != minDt prev then (o', some s!"message {id} (due {e.dt}) started while an earlier-due message waits")
         else if retry ≤ o.clock then (o', some s!"retry time {retry} is not in the future of {o.clock}")
         else if 0 ≤ age && age < two32 && !isRetryB o.clock birth c retry then (o', some s!"retry time {retry} is not birth+(isqrt(age)+skip)^2 for birth {birth} now {o.clock}")
@@ -216,11 +255,19 @@ def oracleStep (lifetime : Int) (o : OSt) (stp : Step) (ev : Ev) : OSt × Option
         else if recs != recsExp then (o', some s!"records after the pass are {recs}, the property requires {recsExp} (dying={dying})")
         else if npar != p0 + p || ntoo != t0 + t then (o', some s!"bounce paragraphs {npar}/{ntoo} (too long), required {p0 + p}/{t0 + t}")
         else if ndel != k then (o', some s!"{ndel} deliveries started for {k} pending recipients")
+        else if unlinkFailed then
+          -- all recipients done but the file could not be removed: the message must stay scheduled (no recipient is
+          -- left that could be retried early), in the future
+          (match newq.find? (·.id == id) with
+           | some ne => if decide (ne.dt > o.clock) && sameMultiset newq (ne :: rest) then (o', none)
+                        else (o', some s!"after a failed unlink message {id} is not rescheduled in the future")
+           | none => (o', some s!"after a failed unlink message {id} is lost from the channel heap"))
         else if gone then
-          (if sameMultiset newq rest then (o', none) else (o', some s!"message {id} left the channel but the heap is not the old one minus it"))
+          (if !sameMultiset newq rest then (o', some s!"message {id} left the channel but the heap is not the old one minus it")
+           else if !otherRecs && !(d.any (·.id == id)) then (o', some s!"message {id} left its last channel but is not in pqdone (lost)")
+           else (o', none))
         else if !sameMultiset newq ({ dt := retry, id := id } :: rest) then
           (o', some s!"after the pass message {id} is not rescheduled exactly at its retry time {retry}")
-        else if !(heapB a.toArray && heapB b.toArray) then (o', some "heap order broken")
         else (o', none)
   | _, .plain "bad" => (o, none)
   | _, _ => (o, some "event does not match the step")
@@ -260,8 +307,9 @@ def handleHist (st : Stats) (line : String) (rest : List String) : IO Stats := d
             else if dis.isNone then dis := some s!"step {k}: model loads {showElts a}/{showElts b}/{showElts d}"
           | _, _ => if !(mev == ev) && dis.isNone then dis := some s!"step {k}: model event {repr mev}"
           match stp, ev with
-          | .pass _ _, .pass id _ dying _ _ _ _ _ _ _ =>
-            st := st.bump (if id = 0 then "hist_pass_none" else if dying then "hist_pass_expiring" else "hist_pass_started")
+          | .pass _ _ ft, .pass id _ dying _ _ _ _ _ _ _ =>
+            st := st.bump (if id = 0 then (if ft.trouble then "hist_pass_none_or_trouble" else "hist_pass_none") else if dying then "hist_pass_expiring" else "hist_pass_started")
+            if ft != Fault.none then st := st.bump "hist_pass_with_fault"
           | .fin, _ => st := st.bump "hist_term_restart"
           | .alrm, _ => st := st.bump "hist_alrm"
           | _, _ => pure ()
@@ -285,6 +333,108 @@ def handleHist (st : Stats) (line : String) (rest : List String) : IO Stats := d
         st := { st with samples := st.samples + 1 }
       return st
   | _ => IO.println s!"DISAGREE unparsable history {line.take 200}"; return { st with disagree := st.disagree + 1, cases := st.cases + 1 }
+
+
+/-! ### pqadd / pqfail scenarios -/
+
+def parseStat (s : String) : Option StatRes :=
+  if s == "n" then some .noent else if s == "e" then some .err else s.toInt?.map StatRes.found
+
+def parseFiles (s : String) : Option (List (Nat × Files)) :=
+  if s == "-" then some [] else
+  (s.splitOn ",").mapM fun t => match t.splitOn ":" with
+    | [i, a, b, c, d] => do
+      some ((← i.toNat?), { info := (← parseStat a), todo := (← parseStat b), ch0 := (← parseStat c), ch1 := (← parseStat d) })
+    | _ => none
+
+def parseHeaps (s : String) : Option Heaps :=
+  match s.splitOn "/" with
+  | ["c", a, b, c, d] => do
+    some { q0 := (← parseElts a).toArray, q1 := (← parseElts b).toArray, done := (← parseElts c).toArray, fail := (← parseElts d).toArray }
+  | _ => none
+
+def heapsEq (x y : Heaps) : Bool :=
+  x.q0.toList == y.q0.toList && x.q1.toList == y.q1.toList && x.done.toList == y.done.toList && x.fail.toList == y.fail.toList
+
+def showHeaps (h : Heaps) : String :=
+  s!"{showElts h.q0.toList}/{showElts h.q1.toList}/{showElts h.done.toList}/{showElts h.fail.toList}"
+
+/-- the property oracle for one `pass_do()` call restricted to pqfail (theorems C15_pqfail_*), on the
+implementation's heaps before (`b`) and after (`a`): heaps stay heaps; at most the pqfail minimum moves and
+only if it is due; a message whose info file exists (and has no todo file) is afterwards in at least one of the
+four heaps (never lost); it enters a channel heap only with the persisted due time (mtime of the channel file),
+never earlier; a re-insertion into pqfail is in the future. -/
+def oracleFail (recent now : Int) (files : Nat → Files) (b a : Heaps) : Option String :=
+  if !(heapB a.q0 && heapB a.q1 && heapB a.done && heapB a.fail) then some "heap order broken" else
+  match minDt b.fail.toList with
+  | none => if heapsEq a b then none else some "pqfail empty but the heaps changed"
+  | some m =>
+    if m > recent then (if sameMultiset a.fail.toList b.fail.toList && heapsEq { a with fail := #[] } { b with fail := #[] } then none
+                        else some "no pqfail entry is due but the heaps changed")
+    else
+      -- which entry moved?
+      let cands := b.fail.toList.filter fun e => e.dt == m
+      let ok := cands.any fun e =>
+        let f := files e.id
+        let restFail := (removeOne e b.fail.toList).getD []
+        let added (x y : PQ) : Option (List Elt) :=     -- entries of y not in x (y = x + added), as a list
+          y.toList.foldl (fun acc z => acc.bind fun (remain, extra) =>
+            match removeOne z remain with
+            | some r => some (r, extra)
+            | none => some (remain, z :: extra)) (some (x.toList, ([] : List Elt))) |>.bind fun (remain, extra) =>
+              if remain.isEmpty then some extra else none
+        match added b.q0 a.q0, added b.q1 a.q1, added b.done a.done, added restFail.toArray a.fail with
+        | some n0, some n1, some nd, some nf =>
+          let all := n0 ++ n1 ++ nd ++ nf
+          let onlyThis := all.all (·.id == e.id)
+          let tracked := !all.isEmpty
+          let mustTrack := (match f.info with | .found _ => true | _ => false) && (match f.todo with | .found _ => false | _ => true)
+          let chanOk (n : List Elt) (st : StatRes) := n.all fun z => match st with | .found t => z.dt == t | _ => false
+          let failOk := nf.all fun z => decide (z.dt > recent) && z.dt == now + SLEEP_SYSFAIL
+          let doneOk := nd.all fun z => z.dt == now
+          let complete := nf.isEmpty == false || mustTrack == false ||
+            ((match f.ch0 with | .found _ => n0.length == 1 | _ => n0.isEmpty) &&
+             (match f.ch1 with | .found _ => n1.length == 1 | _ => n1.isEmpty))
+          onlyThis && (tracked || !mustTrack) && chanOk n0 f.ch0 && chanOk n1 f.ch1 && failOk && doneOk && complete
+        | _, _, _, _ => false
+      if ok then none else some s!"pqfail entry due at {m}: message lost, scheduled earlier than its persisted time, or other entries disturbed"
+
+def handleP (st : Stats) (line : String) (rest : List String) : IO Stats := do
+  let bad := do
+    IO.println s!"DISAGREE unparsable P line {line.take 300}"
+    return { st with disagree := st.disagree + 1, cases := st.cases + 1 }
+  match rest with
+  | [rs, ns, fq, fs, _nc, hs] =>
+    match rs.toInt?, ns.toInt?, parseElts fq, parseFiles fs, (hs.splitOn ";").mapM parseHeaps with
+    | some recent, some now, some failq, some files, some heaps =>
+      let h := hashBytes line.toUTF8.toList
+      let fresh := !st.seen.contains h
+      let mut st := { st with cases := st.cases + 1, seen := st.seen.insert h, nontrivial := st.nontrivial + (if fresh then 1 else 0) }
+      st := st.bump "pqfail_scenarios"
+      let fileOf (i : Nat) : Files := ((files.find? (·.1 == i)).map (·.2)).getD {}
+      let mut m : Heaps := { fail := failq.foldl PQ.insert #[] }
+      let mut prev : Heaps := m
+      let mut dis : Option String := none
+      let mut orc : Option String := none
+      let mut k := 0
+      for impl in heaps do
+        k := k + 1
+        m := passDoFail recent now fileOf m
+        if !heapsEq m impl && dis.isNone then dis := some s!"call {k}: model {showHeaps m} impl {showHeaps impl}"
+        match oracleFail recent now fileOf prev impl with
+        | some w => if orc.isNone then orc := some s!"call {k}: {w}"
+        | none => pure ()
+        if !(sameMultiset prev.fail.toList impl.fail.toList) then st := st.bump "pqfail_readded"
+        prev := impl
+      match dis with
+      | some d => IO.println s!"DISAGREE in=P,{rs},{ns},{fq},{fs},{_nc} what={(d.replace " " "_").take 1200}"; st := { st with disagree := st.disagree + 1 }
+      | none => pure ()
+      match orc with
+      | some w => IO.println s!"ORACLE in=P,{rs},{ns},{fq},{fs},{_nc} what={(w.replace " " "_").take 600} heaps={hs.take 1500}"; st := { st with oracle := st.oracle + 1 }
+      | none => pure ()
+      return st
+    | _, _, _, _, _ => bad
+  | _ => bad
 
 def handle (st : Stats) (line : String) : IO Stats := do
   let bad := fun (st : Stats) => do
@@ -328,6 +478,16 @@ def handle (st : Stats) (line : String) : IO Stats := do
       if m != t then
         IO.println s!"DISAGREE in=N,{birth},{recent},{cs} impl={t} model={m}"
         st := { st with disagree := st.disagree + 1 }
+      -- the harness only generates cases inside the no-overflow range (UBSan build): there the wrapped
+      -- arithmetic must give the same value (theorem C15_overflow_range)
+      if nextretryOk recent birth c then
+        st := st.bump "retry_no_overflow_checked"
+        if nextretryW recent birth c != t then
+          IO.println s!"DISAGREE in=N,{birth},{recent},{cs} impl={t} model_wrapped={nextretryW recent birth c}"
+          st := { st with disagree := st.disagree + 1 }
+      else
+        IO.println s!"DISAGREE in=N,{birth},{recent},{cs} what=case_outside_the_no-overflow_range_(harness_must_not_generate_it)"
+        st := { st with disagree := st.disagree + 1 }
       if age < two32 then
         let okFuture := decide (t > recent)
         let okFormula := age < 0 || isRetryB recent birth c t
@@ -364,6 +524,13 @@ def handle (st : Stats) (line : String) : IO Stats := do
       return st
     | _, _, _ => bad st
   | "S" :: rest => handleHist st line rest
+  | "P" :: rest => handleP st line rest
+  | ["K", name, v] =>
+    let st := { st with cases := st.cases + 1 }
+    if name == "SLEEP_SYSFAIL" && v.toInt? != some Nq.Sched.SLEEP_SYSFAIL then
+      IO.println s!"DISAGREE in=K,{name} impl={v} model={Nq.Sched.SLEEP_SYSFAIL}"
+      return { st with disagree := st.disagree + 1 }
+    return st
   | [] => return st
   | _ => bad st
 
